@@ -109,13 +109,8 @@ func (w *Reconciler) SyncOne(ctx context.Context, namespace, name string, _ int)
 		return syncErr
 	}
 
-	// Update Job and JobStatus.
-	if _, err := w.client.UpdateJob(ctx, rj, newRj); err != nil {
-		return errors.Wrapf(err, "cannot update job")
-	}
-
-	// Update the JobStatus if different.
-	if _, err := w.client.UpdateJobStatus(ctx, rj, newRj); err != nil {
+	// Update Job, and the JobStatus if different.
+	if err := w.client.UpdateJobAndStatus(ctx, rj, newRj); err != nil {
 		return errors.Wrapf(err, "cannot update job")
 	}
 
